@@ -1,5 +1,6 @@
 (* C06, stated of the SOURCE AS IT IS NOW: the two `expand` copies of src/assign.rs (serde_json and toml) are
-   re-translated by tools/rs2v.py on every run (Generated/ScanTree.v).  Both sides are `outcome value`: the
+   re-translated by tools/rs2v.py on every run (Generated/ScanTree.v), and so are the assign walks themselves
+   (assign_value / assign_array / assign_object / assign_scalar / Assign::assign, in lens mode: Generated/ScanTreeMut.v; second part of this file).  Both sides are `outcome value`: the
    equalities are on the nose, for every text and every value. *)
 From JP Require Import Bytes Spec Value GenPrelude Model.Pointer Model.Tree SpecTree
   Generated.ScanTypes GenTreePrelude Generated.ScanTree Proofs.GenEquivBase Proofs.GenEquivTree.
@@ -27,4 +28,30 @@ Example C06_src_examples :
   gen_json_expand [47;45;47;109;126;49;110] (VInt 7) = Ret (Arr [Obj [([109;47;110], VInt 7)]]) /\
   gen_toml_expand [47;45;47;109;126;49;110] (VInt 7) = Ret (Arr [Obj [([109;47;110], VInt 7)]]) /\
   gen_json_expand [] (VInt 7) = Ret (VInt 7) /\ gen_toml_expand [] (VInt 7) = Ret (VInt 7).
+Proof. vm_compute. repeat split. Qed.
+
+(* ==== the assign walk itself, re-translated in lens mode (DESIGN 13.8) =================================================== *)
+From JP Require Import Model.Pointer SpecHist Proofs.HistoryProofs Generated.ScanTreeMut Proofs.GenEquivTreeMut Proofs.GenClosureMut.
+
+(* `doc.assign(p, v)` of the CURRENT source, applied to `&mut doc`, IS the model's assign: same document afterwards, same
+   result, same panics -- every real document (BTreeMap keys sorted), EVERY pointer text, both backends *)
+Theorem C06_src_assign_is_model : forall (be : backend) (d : value) (p : str) (v : value), sorted_value d ->
+  omap model_aout (gen_assign be d (lens_root d) p v) = assign p d v.
+Proof. exact gen_assign_eq. Qed.
+Print Assumptions C06_src_assign_is_model.
+
+(* ... and so follows the rule table of the specification on every valid pointer, without panicking *)
+Theorem C06_src_assign_follows_rules : forall (be : backend) (d : value) (p : str) (v : value),
+  sorted_value d -> valid_ptr p = true ->
+  omap model_aout (gen_assign be d (lens_root d) p v) = Ret (spec_assign (tokens p) d v 0 0).
+Proof. exact gen_assign_refines. Qed.
+Print Assumptions C06_src_assign_follows_rules.
+
+(* {"a":[1]} : assign /a/- := 2 appends; assign /a/0/x := 3 replaces the scalar 1 by {"x":3}; assign /a/5 is out of bounds *)
+Example C06_src_assign_examples :
+  let d := Obj [([97], Arr [VInt 1])] in
+  omap model_aout (gen_json_assign d (lens_root d) [47;97;47;45] (VInt 2)) = Ret (Obj [([97], Arr [VInt 1; VInt 2])], Ok None) /\
+  omap model_aout (gen_toml_assign d (lens_root d) [47;97;47;48;47;120] (VInt 3)) =
+    Ret (Obj [([97], Arr [Obj [([120], VInt 3)]])], Ok (Some (VInt 1))) /\
+  omap model_aout (gen_json_assign d (lens_root d) [47;97;47;53] (VInt 2)) = Ret (d, Err (AOutOfBounds 1 2 1 5)).
 Proof. vm_compute. repeat split. Qed.
